@@ -254,6 +254,25 @@ func TestVerifDriver(t *testing.T) {
 	}
 	specials := [][]byte{{}, {0}, {1}, {0, 0, 1}, {2}, sn.Bytes(), new(big.Int).Sub(sn, big.NewInt(1)).Bytes(), new(big.Int).Add(sn, big.NewInt(1)).Bytes(),
 		append([]byte{0, 0}, sn.Bytes()...), bytesOfOnes(32), bytesOfOnes(33), new(big.Int).Lsh(sn, 1).Bytes()}
+	// scalars whose double-and-add ladder runs into a special case of the group law: after a prefix m with
+	// 2m = 1 (mod n) the ladder adds G to an accumulator equal to G (k = n+2 and its continuations), with
+	// 2m = -1 it adds G to -G (k = n), with 2m = 0 it adds G to the identity (k = 2n+1 ...)
+	for _, base := range []int64{2, 0, 1} {
+		for t := int64(0); t < 3; t++ {
+			k0 := new(big.Int).Add(new(big.Int).Mul(sn, big.NewInt(2*t+1)), big.NewInt(base)) // (2t+1) n + base
+			for j := uint(0); j < 3; j++ {
+				for rr := int64(0); rr < 1<<j; rr++ {
+					v := new(big.Int).Add(new(big.Int).Lsh(k0, j), big.NewInt(rr))
+					specials = append(specials, v.Bytes())
+				}
+			}
+		}
+	}
+	for i, sc := range specials {
+		if i%vEnvInt("VERIF_SPECIAL_STRIDE", 1) == int(vSeed())%vEnvInt("VERIF_SPECIAL_STRIDE", 1) {
+			emit("ecb.hom", M{"a": vInts(sc), "b": vInts(rndScalar().Bytes())})
+		}
+	}
 	for k := 0; k < n; k++ {
 		a := refMul(rndScalar(), g)
 		b := refMul(rndScalar(), g)
@@ -278,9 +297,9 @@ func TestVerifDriver(t *testing.T) {
 		sb := rndScalar().Bytes()
 		switch k % 5 {
 		case 1:
-			sa = specials[(k/5)%len(specials)]
+			sa = specials[(k/5+int(vSeed()))%len(specials)]
 		case 2:
-			sb = specials[(k/5)%len(specials)]
+			sb = specials[(k/5+int(vSeed()))%len(specials)]
 		case 3: // b = n - a
 			sb = new(big.Int).Sub(sn, new(big.Int).Mod(new(big.Int).SetBytes(sa), sn)).Bytes()
 		case 4:
